@@ -11,10 +11,10 @@ for c in items:
     rep = C.verify_contract(c)
     st = {}
     for ob in rep.obligations: st[ob.status] = st.get(ob.status,0)+1
-    print(f'{c.qual:55s} paths={rep.paths:4d} obs={len(rep.obligations):4d} {st} {rep.time_s:.2f}s', rep.error or '')
+    print(f'{c.qual:55s} paths={rep.paths:4d} obs={len(rep.obligations):4d} {st} {rep.time_s:.2f}s explore={getattr(rep,"explore_s",0):.1f}s', rep.error or '')
     for ob in rep.obligations:
         if ob.status != 'discharged':
             print('   ', ob.name, ob.status, ob.reason, ob.meta)
             if ob.model is not None:
                 print('      model:', str(ob.model)[:600].replace('\n',' '))
-            break
+            if not os.environ.get('DEV_ALL'): break
